@@ -254,6 +254,7 @@ pub fn main() {
     let mut missing_from = 0u64;
     let mut by_kind: BTreeMap<String, u64> = BTreeMap::new();
     let (mut crash_edges, mut failed_storage_edges) = (0u64, 0u64);
+    let (mut effective_purges, mut effective_purge_failures) = (0u64, 0u64);
     let mut rt: Option<(tokio::runtime::Runtime, Clock)> = None;
     let mut in_rt = 0u64;
 
@@ -304,6 +305,12 @@ pub fn main() {
         if outcome == "fail" {
             failed_storage_edges += 1;
         }
+        if kind == "purge" && e["op"]["purged"].as_array().map(|a| !a.is_empty()).unwrap_or(false) {
+            effective_purges += 1;
+            if outcome == "fail" {
+                effective_purge_failures += 1;
+            }
+        }
         let observed = json!({"set": project(scale, &r.set), "storage": snapshot_json(scale, &r.snap), "reply_ok": r.reply_ok});
         if !r.why_c02.is_empty() {
             sum.violation(json!({"property": "C02", "why": r.why_c02, "edge": e, "observed": observed, "from_key": cur_key}));
@@ -345,6 +352,8 @@ pub fn main() {
     sum.set("by_kind", json!(by_kind));
     sum.set("crash_edges", crash_edges);
     sum.set("failed_storage_edges", failed_storage_edges);
+    sum.set("effective_purges", effective_purges);
+    sum.set("effective_purge_failures", effective_purge_failures);
     sum.write(&out);
     if missing_from > 0 {
         std::process::exit(2);
